@@ -62,6 +62,8 @@ def solver_family(ctx, cases=None):
         cdir = core.ROOT / "corpus" / "C11" / "solver"
         for f in sorted(cdir.glob("*.json")) if cdir.exists() else []:
             cases.append(json.loads(f.read_text()))
+        cases += opskit.criterion_cases(ctx.rng)            # every built-in termination criterion class, evaluations reporting None
+        cases.append(opskit.long_run_case(600))             # 600 generations with stub operators
         cases += opskit.solver_level_cases(ctx.rng, ctx.n(12, 120), ctx.n(3, 30), ctx.n(3, 30))
     shared, solves, entries = [], 0, 0
     for case in cases:
@@ -81,6 +83,11 @@ def solver_family(ctx, cases=None):
         ctx.case(dict(solver_case=case), nontrivial=notes["solves"] >= 2, sample=dict(kind=case["kind"], solves=notes["solves"]))
         ctx.tally(f"solver-family:{case['kind']}")
         ctx.tally(f"solver-family:solves:{notes['solves']}")
+        ctx.tally(f"solver-family:criterion:{notes.get('criterion')}")
+        if case.get("with_none"):
+            ctx.tally("solver-family:evaluations-reporting-None")
+        if case.get("long"):
+            ctx.tally(f"solver-family:long-run-history-entries:{notes['history_entries']}")
         for e in notes.get("solve_exceptions", []):
             ctx.tally("solver-family:solve-raised:" + e.split(":")[1].strip())
     ctx.notes["solver_family"] = dict(cases=len(cases), solves=solves, history_entries_compared=entries,
